@@ -1350,4 +1350,50 @@ theorem Sim3Equiv_mul_right {X Y : Sim3 ℝ} (h : Sim3Equiv X Y) (Z : Sim3 ℝ) 
     · right; simp only [hq]; exact Spline.Quat.neg_mul' _ _
 
 
+/-- two similarities with the same scale differ by a rigid motion on the left: `alignPose U e = G·alignPose V e` with
+`G` = the rigid part of `U·V⁻¹` -/
+theorem alignPose_same_scale (U V : Sim3 ℝ) (hU : Sim3.Valid U) (hV : Sim3.Valid V) (hs : U.s = V.s) (e : SE3 ℝ) :
+    alignPose U e = SE3Mul ⟨(Sim3Mul U (Sim3Inv V)).t, (Sim3Mul U (Sim3Inv V)).q⟩ (alignPose V e) := by
+  have hVi := Sim3_valid_inv V hV
+  set W := Sim3Mul U (Sim3Inv V) with hW
+  have hWs : W.s = 1 := by
+    show U.s * (k 1 / V.s) = 1
+    rw [hs]; simp only [k_real, Nat.cast_one]; exact mul_one_div_cancel (ne_of_gt hV.2)
+  have hWe : W = ⟨W.t, W.q, 1⟩ := by
+    cases hW' : W with
+    | mk t q sc => rw [hW'] at hWs; simp only at hWs; rw [hWs]
+  have hWV : Sim3Mul W V = U := by
+    rw [hW, Sim3_mul_assoc _ _ _ hU hVi, Sim3_inv_mul V hV, Sim3_mul_one]
+  have hWv : Sim3.Valid W := Sim3_valid_mul _ _ hU hVi
+  conv_lhs => rw [← hWV, ← alignPose_mul W V e hWv hV, hWe]
+  exact alignPose_rigid ⟨W.t, W.q⟩ (alignPose V e)
+
+
+/-- a similarity that fixes two distinct points has scale 1 -/
+theorem sim3_scale_of_two_fixed (T : Sim3 ℝ) (hT : Sim3.Valid T) (p q : Vec3 ℝ) (hp : Sim3Act T p = p) (hq : Sim3Act T q = q)
+    (hne : p ≠ q) : T.s = 1 := by
+  have hd : (Sim3Act T p).sub (Sim3Act T q) = (T.q.act (p.sub q)).smul T.s := by
+    rw [← act_sub]; unfold Sim3Act; ext <;> simp [Vec3.add, Vec3.sub, Vec3.smul] <;> ring
+  rw [hp, hq] at hd
+  have hn := congrArg Vec3.normSq hd
+  have hsm : ((T.q.act (p.sub q)).smul T.s).normSq = T.s * T.s * (T.q.act (p.sub q)).normSq := by
+    simp only [Vec3.normSq, Vec3.smul]; ring
+  rw [hsm, Quat.act_normSq T.q hT.1] at hn
+  have hpos : 0 < (p.sub q).normSq := by
+    rcases lt_or_eq_of_le (Vec3.normSq_nonneg (p.sub q)) with h | h
+    · exact h
+    · exfalso
+      have hz := normSq_eq_zero _ h.symm
+      apply hne
+      have hx := congrArg Vec3.x hz; have hy := congrArg Vec3.y hz; have hzz := congrArg Vec3.z hz
+      simp only [Vec3.sub, Vec3.zero, k_real, Nat.cast_zero] at hx hy hzz
+      ext <;> linarith
+  have hs2 : T.s * T.s = 1 := by
+    have : (T.s * T.s - 1) * (p.sub q).normSq = 0 := by linarith
+    rcases mul_eq_zero.mp this with h | h
+    · linarith
+    · linarith
+  have hsp := hT.2
+  nlinarith
+
 end PP.Traj
